@@ -77,6 +77,10 @@ CHECKS = {
    technique="TLC model checking of spec/Crypt.tla (the security handler as a protocol over uninterpreted ciphers: variant table, password acceptance, per-object key, exemptions, where decryption is applied; PlaintextOrRejected) + replay on documents written by an independent encryptor + the repository's encrypted fixtures",
    text="TLC checks for every configuration that the library model applies decryption exactly where the writer applied encryption, with the key the writer used, and refutes four deviations (AES-256 key truncated, metadata exemption ignored, /Encrypt dictionary decrypted, object-stream members decrypted twice); every configuration is realised by an independent implementation of the standard's algorithms and opened through the library with the user, owner, wrong and empty password; the third-party fixtures validate both implementations.",
    note="Cryptographic arithmetic is uninterpreted in the spec (sampled through the reference implementation). One recorded finding (direct /Encrypt dictionary) is suppressed by class."),
+ "C01": dict(level="exploration", design="5/C01", engine="A:bytes + A:walk (child processes, watchdog, address-space cap)",
+   technique="TLC model checking of spec/Syntax.tla (tokenizer model: cursor safety and progress over every byte string up to a bound) and spec/Faults.tla (reader pipeline over damaged base layouts: every stage answers ok/err, /Prev loops stopped, termination; five missing-guard deviations refuted) + replay of every enumerated byte string through every lexer / parser entry point and of every enumerated damaged file (and the repository's files, whole and cut at token boundaries) through every read entry point in crash-observing child processes",
+   text="The specifications generate the inputs: all byte strings up to length 4 (quick) / 5 (thorough) over 16 bytes that drive the lexer's branches, and all single and double faults (offsets, counts, lengths, widths, keywords, cuts after any token) of four base layouts; TLC checks the models' own safety and termination properties on them; each input is pushed through the real lexer, parsers and the whole-document walker under strict/tolerant x cached/uncached, and any panic, stack overflow, abort, allocation failure, hang or disproportionate time fails the check.",
+   note="Exploration level: the quantifier over all byte strings is covered only by these generated families plus the repository corpus; byte-level mutation of large valid files and damage inside compressed data are not generated. The fault model abstracts the reader's guards; conformance is observed only as 'no crash'."),
  "C14": dict(level="model_checking", design="5/C14", engine="A:walk (child processes, watchdog, address-space cap)",
    technique="TLC model checking of spec/Schema.tla (schema fragments as data: reference slots with their follow mode - guarded load, depth budget, tree walk with visited set, lazy link, leaf - and numeric slots with their use; traversal with an explicit recursion stack; StackBounded, OutcomeOk, WorkBounded, Terminates; five deviations refuted) + replay of every enumerated graph as a complete file through every read entry point in crash-observing child processes",
    text="TLC assigns every reference slot of every fragment to every object of the fragment and every numeric slot the boundary values, checks on the traversal model that recursion depth and work stay bounded and every traversal ends in ok/err, and refutes the model without tree-walk visited set, recursion guard, depth budget, and loop/index range checks; every assignment becomes a file that is opened strict/tolerant x cached/uncached and walked through all read entry points in a child process with watchdog and memory cap; panic, stack overflow, abort, allocation failure, hang, disproportionate time, or a tree walk succeeding on a graph the model refuses, fails the check.",
